@@ -49,11 +49,17 @@ class FlowGen(object):
         v = ("var", var or self.r.choice(VARS))
         return ("print", [("e", ("str", "m%d" % self.mid)), ("sep", ";"), ("e", v)], None)
 
-    def cond(self):
+    def cond(self, calls=False):
         r = self.r
         a = ("var", r.choice(VARS))
         c = ("bin", r.choice(["=", "<>", "<", ">", "<=", ">="]), a, n(r.randint(0, 4)))
         x = r.random()
+        if calls and r.random() < 0.3:
+            # two run-translated calls with different operands in one condition: each needs its own temporary (only in
+            # a plain IF: IF..ELSE loses such calls altogether, the known mechanism of C01/C05/C08 pinned by test_int_lvalue)
+            b = ("var", r.choice([v for v in VARS if v != a[1]]))
+            half = lambda e: ("fn", "INT", [("bin", "/", e, n(2))])                                  # noqa: E731
+            return ("bin", r.choice(["=", "<>", "<", ">"]), half(a), ("bin", "+", half(b), n(r.randint(0, 1))))
         if x < 0.15:
             c2 = ("bin", r.choice(["=", "<", ">"]), ("var", r.choice(VARS)), n(r.randint(0, 4)))
             return ("bin", r.choice(["AND", "OR"]), c, c2)
@@ -110,7 +116,7 @@ class FlowGen(object):
         els = self.arm_stmts(depth, need_else) if (has_else or (nel and r.random() < 0.5) or need_else) else None
         if nel and els is None:
             self.has_elif_noelse = True
-        return ("if", self.cond(), then, elifs, els)
+        return ("if", self.cond(calls=(els is None and not elifs)), then, elifs, els)
 
     def line(self, stmts):
         self.items.append(("line", stmts))
@@ -180,6 +186,9 @@ class FlowGen(object):
                 pre = [("let", ("var", sv), ("bin", "+", ("var", sv), n(1)), False)]
             elif y < 0.5:
                 sel = ("bin", "+", ("fn", "INT", [("var", sv)]), n(0))
+            elif y < 0.62:
+                # two calls in the selector, the second one worth 0: sharing a temporary would select nothing
+                sel = ("bin", "+", ("fn", "INT", [("var", sv)]), ("fn", "INT", [("num", 0.5, [".5"])]))
             if gosub:
                 for t in ts:
                     body = []
@@ -246,6 +255,10 @@ class FlowGen(object):
         a, b = (n(hi), n(lo)) if neg else (n(lo), n(hi))
         if r.random() < 0.3:
             b = ("bin", "+", ("var", r.choice(VARS)), n(0)) if not neg else b
+        if not neg and b[0] == "num" and r.random() < 0.12:
+            # both bounds through a run-translated call (INT(lo.5) = lo): two temporaries in one FOR statement
+            a = ("fn", "INT", [("num", a[1] + 0.5, ["%d.5" % a[1]])])
+            b = ("fn", "INT", [("num", b[1] + 0.5, ["%d.5" % b[1]])])
         head = ("for", v, a, b, step)
         form = r.random()
         self.for_changes_limit = False
